@@ -62,6 +62,8 @@ def s_strict(nchunks, bufsize, stream_len):
         return out
 
     fb = frame_buffer(recv, True)
+    sx.unit(fb, "recv_buffer")  # pre-loaded read-ahead buffer: private attribute
+    sx.unit(fb, "recv_strict")
     fb.recv_buffer = list(pre)
     before = b""
     for c in pre:
